@@ -42,7 +42,9 @@ def make_exc(outcome, tag):
     if outcome == "ce":
         return ContentException("ce-%s" % tag)
     if outcome == "cpe":
-        return CalledProcessError(1, "cmd-%s" % tag, "out")
+        # failed commands of different components are often EQUAL in return code, command and output (two consumers of one
+        # failing command): only two distinct texts are used, so equal-but-distinct error objects occur in most graphs
+        return CalledProcessError(1, "cmd-%d" % (sum(map(ord, tag)) % 2), "out")
     if outcome == "timeout":
         return TimeoutException("to-%s" % tag)
     if outcome == "boom":
@@ -52,6 +54,10 @@ def make_exc(outcome, tag):
     if outcome == "valerr":
         return ValueError("val-%s" % tag)
     return None
+
+
+def raiser_name(i, k):
+    return "raise_in_node_%d_%s" % (i, "x" if k is None else "elem_%d" % k)
 
 
 def sig(obj):
@@ -386,6 +392,16 @@ def _make_body(b, i, nd, tag, modname):
             b.elem_excs[(i, k)] = e
             b.injected[id(e)] = (i, k)
 
+    # every failure is raised from a function whose name is unique to (node, element): the traceback stored for an
+    # exception can be told from the traceback of any other failure even when the exception objects compare equal
+    def mk_raiser(name):
+        def raiser(e):
+            raise e
+        raiser.__code__ = raiser.__code__.replace(co_name=name, co_qualname=name)
+        return raiser
+    raise_node = mk_raiser(raiser_name(i, None))
+    raise_elem = dict((k, mk_raiser(raiser_name(i, k))) for k in range(len(elem_out)))
+
     def body(*args):
         rec = _ACTIVE[0]
         if rec is not None:
@@ -399,14 +415,14 @@ def _make_body(b, i, nd, tag, modname):
             eo = elem_out[k % len(elem_out)] if elem_out else "value"
             e = b.elem_excs.get((i, k % len(elem_out))) if elem_out else None
             if e is not None:
-                raise e
+                raise_elem[k % len(elem_out)](e)
             if eo == "none":
                 return None
             return ("pv", i, k, sig(args[0]))
         if kind == "parser" and outcome == "none":
             return None
         if exc is not None:
-            raise exc
+            raise_node(exc)
         if kind == "rule":
             if outcome == "none":
                 return None
